@@ -164,6 +164,7 @@ func CoqReader(ts []MTok, fail bool) string {
 type Event struct {
 	Kind string `json:"k"`
 	Tok  *MTok  `json:"t,omitempty"`
+	Call int    `json:"c"` // sequential scenarios: the index of the running call (-1: unknown)
 }
 
 func CoqEvents(evs []Event) string {
